@@ -53,6 +53,9 @@ pub enum Shape {
     Tuple,
     /// the unit type `()`
     UnitType,
+    /// a color with a hand-written fixed-length *sequence* representation (`serialize_seq` /
+    /// `deserialize_seq`): the adapters' `SerializeSeq` and `AlphaSeqVisitor` paths
+    Seq,
 }
 
 #[derive(Clone, Copy, Debug, PartialEq, Eq)]
@@ -480,6 +483,45 @@ pub mod user {
     #[derive(Serialize, Deserialize, PartialEq, Debug, Clone, Copy)]
     pub struct UnitTuple();
 
+    /// Three components written with `serialize_seq(Some(3))` and read back with `deserialize_seq` by a
+    /// visitor that takes exactly three elements (so that a trailing alpha is left for the adapter).
+    #[derive(PartialEq, Debug, Clone, Copy)]
+    pub struct SeqColor(pub [f32; 3]);
+
+    impl Serialize for SeqColor {
+        fn serialize<S: serde::Serializer>(&self, serializer: S) -> Result<S::Ok, S::Error> {
+            use serde::ser::SerializeSeq;
+            let mut seq = serializer.serialize_seq(Some(3))?;
+            for x in &self.0 {
+                seq.serialize_element(x)?;
+            }
+            seq.end()
+        }
+    }
+    impl<'de> Deserialize<'de> for SeqColor {
+        fn deserialize<D: serde::Deserializer<'de>>(deserializer: D) -> Result<Self, D::Error> {
+            struct V;
+            impl<'de> serde::de::Visitor<'de> for V {
+                type Value = SeqColor;
+                fn expecting(&self, f: &mut core::fmt::Formatter) -> core::fmt::Result {
+                    write!(f, "a sequence of three numbers")
+                }
+                fn visit_seq<A: serde::de::SeqAccess<'de>>(self, mut seq: A) -> Result<SeqColor, A::Error> {
+                    let mut out = [0.0f32; 3];
+                    for (i, slot) in out.iter_mut().enumerate() {
+                        *slot = seq.next_element()?.ok_or_else(|| serde::de::Error::invalid_length(i, &self))?;
+                    }
+                    Ok(SeqColor(out))
+                }
+            }
+            deserializer.deserialize_seq(V)
+        }
+    }
+    impl Case for SeqColor {
+        fn build(v: &[f64]) -> Self { SeqColor([v[0] as f32, v[1] as f32, v[2] as f32]) }
+        fn comps(&self) -> Vec<u64> { self.0.iter().map(|x| (*x as f64).to_bits()).collect() }
+    }
+
     impl Case for () {
         fn build(_v: &[f64]) -> Self {}
         fn comps(&self) -> Vec<u64> { vec![] }
@@ -525,6 +567,7 @@ pub mod user {
     alpha_of!((), 0);
     alpha_of!(UnitTuple, 0);
     alpha_of!((f32, f32), 2);
+    alpha_of!(SeqColor, 3);
 
     macro_rules! user_desc {
         ($plain:ident, $alpha:ident, $t:ty, $name:literal, $sername:literal, $shape:expr, $fields:expr, $n:expr) => {
@@ -547,6 +590,7 @@ pub mod user {
     user_desc!(UNITTYPE, UNITTYPE_A, (), "()", "", Shape::UnitType, &[], 0);
     user_desc!(UNITTUPLE, UNITTUPLE_A, UnitTuple, "UnitTuple", "UnitTuple", Shape::TupleStruct, &[], 0);
     user_desc!(PAIR, PAIR_A, (f32, f32), "(f32,f32)", "", Shape::Tuple, &[], 2);
+    user_desc!(SEQ, SEQ_A, SeqColor, "SeqColor", "", Shape::Seq, &[], 3);
 }
 
 // ---- alpha of another scalar type than the color's components
@@ -658,6 +702,7 @@ pub fn all_cases() -> Vec<&'static CaseDesc> {
     for u in [
         &user::UNIT, &user::UNIT_A, &user::NEWTYPE, &user::NEWTYPE_A, &user::TUPLE, &user::TUPLE_A, &user::NAMED, &user::NAMED_A,
         &user::UNITTYPE, &user::UNITTYPE_A, &user::UNITTUPLE, &user::UNITTUPLE_A, &user::PAIR, &user::PAIR_A,
+        &user::SEQ, &user::SEQ_A,
     ] {
         v.push(u);
     }
